@@ -904,6 +904,7 @@ func runC13(c *Ctx) error {
 		x.edgeCase(c.rng.Fork())
 	}
 	x.valueVsText()
+	x.endToEnd(c.rng.Fork())
 	x.fixedCases()
 	return nil
 }
